@@ -17,6 +17,7 @@ type C12Case struct {
 	ST   int64  `json:"st,omitempty"`  // signed threshold
 	UT   uint64 `json:"ut,omitempty"`  // unsigned threshold
 	Up   bool   `json:"up"`            // fails when v >= threshold (else: v <= threshold)
+	D    int    `json:"d,omitempty"`   // collections over small domains: size of the key domain / alphabet, or the byte limit
 	K    int    `json:"k,omitempty"`   // collections: fails when len >= k
 	How  string `json:"how,omitempty"` // how the breach is signalled: "" Fatalf | errorf | error-const | fail | panic
 	Seed uint64 `json:"seed"`
@@ -35,10 +36,25 @@ var c12Kinds = []string{"Int", "Int8", "Int16", "Int32", "Int64", "Uint", "Uint8
 func (c12) Gen(dt *drv.T, c *Ctx) any {
 	cs := &C12Case{Seed: drv.Uint64Range(1, 1<<62).Draw(dt, "seed")}
 	cs.How = pick(dt, "how", "", "", "errorf", "errorf", "error-const", "fail", "panic")
-	if chance(dt, "collection", 4) {
-		cs.What = pick(dt, "coll", "slice", "string", "map")
+	if chance(dt, "collection", 7) {
+		cs.What = pick(dt, "coll", "slice", "string", "map", "mapbool", "distinct", "mapsmall", "stringof", "stringmax")
 		cs.IK = pick(dt, "elem", "Int", "Uint8", "Int64", "Uint16")
 		cs.K = drv.IntRange(0, 32).Draw(dt, "k")
+		switch cs.What {
+		case "mapbool":
+			// collections over tiny domains: generation often ends because no new key can be found, not because the
+			// generator decided to stop; the boundary is a collection of exactly k elements all the same
+			cs.D = 2
+			cs.K = drv.IntRange(0, 2).Draw(dt, "ksmall")
+		case "distinct", "mapsmall":
+			cs.D = drv.IntRange(2, 6).Draw(dt, "domain")
+			cs.K = drv.IntRange(0, cs.D).Draw(dt, "ksmall")
+		case "stringof":
+			cs.D = drv.IntRange(1, 3).Draw(dt, "alphabet")
+		case "stringmax":
+			cs.D = drv.IntRange(1, 12).Draw(dt, "maxlen") // bytes
+			cs.K = drv.IntRange(0, cs.D).Draw(dt, "ksmall")
+		}
 		return cs
 	}
 	cs.What = "int"
@@ -114,6 +130,28 @@ func c12Prop(cs *C12Case) (prop func(*rapid.T), last func() any) {
 			v = x
 			if utf8.RuneCountInString(x) >= cs.K {
 				fail(t, "too long: %d", utf8.RuneCountInString(x))
+			}
+		}
+	case "mapbool", "distinct", "mapsmall", "stringof", "stringmax":
+		var cg *rapid.Generator[any]
+		switch cs.What {
+		case "mapbool":
+			cg = rapid.MapOf(rapid.Bool(), g).AsAny()
+		case "distinct":
+			cg = rapid.SliceOfDistinct(rapid.ByteRange(0, byte(cs.D-1)), rapid.ID[byte]).AsAny()
+		case "mapsmall":
+			cg = rapid.MapOf(rapid.IntRange(0, cs.D-1), g).AsAny()
+		case "stringof":
+			cg = rapid.StringOf(rapid.RuneFrom([]rune("aé目")[:cs.D])).AsAny()
+		case "stringmax":
+			cg = rapid.StringN(-1, -1, cs.D).AsAny()
+		}
+		prop = func(t *rapid.T) {
+			v = nil
+			x := cg.Draw(t, "v")
+			v = x
+			if n := collLen(x); n >= cs.K {
+				fail(t, "too large: %d", n)
 			}
 		}
 	case "map":
@@ -201,6 +239,11 @@ func (c12) Run(c *Ctx, csAny any) Outcome {
 		if n := utf8.RuneCountInString(got.(string)); n != cs.K {
 			out.Viol = violf("C12:inexact:string-length", "String(), fails when it has >= %d runes: reported %q (%d runes)", cs.K, got, n)
 		}
+	case "mapbool", "distinct", "mapsmall", "stringof", "stringmax":
+		out.NonTrivial = cs.K >= 1
+		if n := collLen(got); n != cs.K {
+			out.Viol = violf("C12:inexact:small-domain-collection", "%s (domain / limit %d), fails when it has >= %d elements: reported %#v (%d elements)", cs.What, cs.D, cs.K, got, n)
+		}
 	case "map":
 		out.NonTrivial = cs.K >= 1
 		if n := reflect.ValueOf(got).Len(); n != cs.K {
@@ -208,6 +251,17 @@ func (c12) Run(c *Ctx, csAny any) Outcome {
 		}
 	}
 	return out
+}
+
+// collLen: number of elements of a slice or map, number of runes of a string.
+func collLen(x any) int {
+	if s, ok := x.(string); ok {
+		return utf8.RuneCountInString(s)
+	}
+	if x == nil {
+		return 0
+	}
+	return reflect.ValueOf(x).Len()
 }
 
 func dirStr(up bool) string {
